@@ -233,10 +233,10 @@ Section NoExn.
       try (intros jctx ictx def id Hs; cbn [check_attr_type value_safe] in *;
            destruct (assoc id (sd_attrs def)) as [[p|p len]|]; try discriminate;
            try solve [destruct (struct_of_prim E p); auto with noexn;
-                      destruct (check_type_of_value _ None p); auto with noexn]).
+                      destruct (check_type_of_value E _ None p); auto with noexn]).
     (* PVStruct under a struct-typed attribute *)
     - destruct (struct_of_prim E p) as [sd'|];
-        [|destruct (check_type_of_value _ None p); auto with noexn].
+        [|destruct (check_type_of_value E _ None p); auto with noexn].
       clear - H Hs. induction fs as [|[id' v'] r IHr]; [auto with noexn|].
       inversion H; subst. apply andb_true_iff in Hs. destruct Hs as [Hs1 Hs2].
       apply noexn_band; [apply H2; exact Hs1 | apply IHr; assumption].
@@ -256,7 +256,7 @@ Section NoExn.
           inversion H2; subst. apply andb_true_iff in Hs1. destruct Hs1 as [Ha Hb].
           apply noexn_band; [|apply IHr2; assumption].
           destruct (has_key id' (sd_attrs sd')); [apply H1; exact Ha | auto with noexn].
-        * intros _ _. destruct (check_type_of_value value (Some p) p); [|auto with noexn].
+        * intros _ _. destruct (check_type_of_value E value (Some p) p); [|auto with noexn].
           apply IHr; assumption.
   Qed.
 
